@@ -934,6 +934,18 @@ def check_written(fd, scratch, pq, tag):
         counts["footer"] += 1
         if sym(r[0]) != "ok" or r[2] != 0:
             problems.append(("FileMetaData", os.path.basename(fn), "footer is not a conformant FileMetaData: %s at field path %r" % (sym(r[0]), T.canon(r)[1:2])))
+        else:
+            # the codec the caller named is written as the IDL's constant of that name
+            from harness import c10_edits as E
+            want = ENUMS["CompressionCodec"][(fd["compression"] or "UNCOMPRESSED").upper()]
+            tree = E.dec(r[1])
+            for rg in (E.get(tree, 4) or ["l", 0, []])[2]:
+                for cc in E.get(rg, 1)[2]:
+                    cmd = E.get(cc, 3)
+                    if cmd is not None and E.get(cmd, 4)[1] != want:
+                        problems.append(("FileMetaData", os.path.basename(fn), "ColumnMetaData.codec is %r, the IDL value of %s is %d" % (
+                            E.get(cmd, 4)[1], fd["compression"], want)))
+                        break
         if os.path.basename(fn) in ("_metadata", "_common_metadata"):
             continue
         fmd = fastparquet.cencoding.from_buffer(footer, "FileMetaData")
@@ -949,8 +961,12 @@ def check_written(fd, scratch, pq, tag):
     return problems, counts
 
 
+ENUMS = {}
+
+
 def stream_files(ctx, pq):
     C.use_shadow()
+    ENUMS.update(T.load_idl()[0])
     rng = ctx.rng
     n = 8 if ctx.quick() else 80
     for i in range(n):
@@ -1020,6 +1036,7 @@ def replay(rep):
         tmp = tempfile.mkdtemp(prefix="verif-C10-replay-", dir="/tmp")
         try:
             pq = C.Pqref()
+            ENUMS.update(T.load_idl()[0])
             problems, counts = check_written(case["file"], tmp, pq, "replay")
             pq.close()
             print("wrote %r; strict IDL-typed parse of %d footer(s), %d page header(s)" % (case["file"], counts["footer"], counts["page_header"]))
